@@ -1464,7 +1464,9 @@ def merge_nested_comprehensions(source: str) -> str:
 
                 tf = RenameTransformer(target_name_inner, comprehension.target.id)
 
-                new_generators.extend(tf.visit(comprehension.iter).generators)
+                # NodeTransformer edits in place, and comprehension.iter belongs to the tree
+                # cached by core.parse: transform a copy.
+                new_generators.extend(tf.visit(copy.deepcopy(comprehension.iter)).generators)
 
             else:
                 new_generators.append(comprehension)
